@@ -56,12 +56,12 @@ Definition dec_sec_nanos : @body (Z * Z) := fun st sn =>
   (st2, (as_int v1, as_int v2)).
 
 (* PicoDecode: if c.PendingField() != field return; ... *)
-Definition dec_duration (field : Z) (st : dstate) (old : Z) : dstate * Z :=
+Definition dec_duration (F : nat) (field : Z) (st : dstate) (old : Z) : dstate * Z :=
   if negb (pf st =? field) then (st, old) else
-  let '(st', (seconds, nanos)) := dec_message field dec_sec_nanos st (0, 0) in
+  let '(st', (seconds, nanos)) := dec_message F field dec_sec_nanos st (0, 0) in
   (st', dur_join seconds nanos).
 
-Definition dec_timestamp (field : Z) (st : dstate) (old : Z * Z) : dstate * (Z * Z) :=
+Definition dec_timestamp (F : nat) (field : Z) (st : dstate) (old : Z * Z) : dstate * (Z * Z) :=
   if negb (pf st =? field) then (st, old) else
-  let '(st', (seconds, nanos)) := dec_message field dec_sec_nanos st (0, 0) in
+  let '(st', (seconds, nanos)) := dec_message F field dec_sec_nanos st (0, 0) in
   (st', time_unix seconds nanos).
